@@ -1031,10 +1031,10 @@ class ComputeGraph(MultiDiGraph):
         # directly — so we have to strip the marker here too, otherwise the
         # Fortran printer emits bare `identity(...)` calls that gfortran flags
         # as undefined functions.
-        expr = expr.replace(
-            lambda e: isinstance(e, sp.Function) and e.func.__name__ == 'identity',
-            lambda e: e.args[0]
-        )
+        def _is_identity(e):
+            return isinstance(e, sp.Function) and e.func.__name__ == 'identity'
+        while expr.find(_is_identity):      # `replace` strips one nesting level per pass
+            expr = expr.replace(_is_identity, lambda e: e.args[0])
         return expr
 
     def _expr_to_jac_str(self, expr, sym_to_y_idx: dict, past_sym_to_str: dict):
